@@ -7,7 +7,10 @@
 */
 #include "env_pre.h"
 #define psf_log_printf(...)		verif_nolog ()
-#ifdef LAYOUT_MS
+#ifdef LAYOUT_GSM
+#include "gsm610.c"
+#define IMA_ADPCM_PRIVATE	GSM610_PRIVATE
+#elif defined (LAYOUT_MS)
 #include "ms_adpcm.c"
 #define IMA_ADPCM_PRIVATE	MSADPCM_PRIVATE		/* same reader state fields: blocksize, samplesperblock, blocks, blockcount, samplecount */
 #else
@@ -24,6 +27,11 @@ void verif_nolog (void) { }
 #define BLOCKSIZE	34
 #define SPB			64
 #define SEEK_FN		aiff_ima_seek
+#elif defined (LAYOUT_GSM)
+#define K			1
+#define BLOCKSIZE	WAVLIKE_GSM610_BLOCKSIZE		/* the WAV49 geometry: 65 bytes, 320 samples */
+#define SPB			WAVLIKE_GSM610_SAMPLES
+#define SEEK_FN		gsm610_seek
 #elif defined (LAYOUT_MS)
 #define K			1
 #define BLOCKSIZE	(256 * CH)
@@ -56,13 +64,31 @@ __CPROVER_ensures (pima->blockcount == __CPROVER_old (pima->blockcount) + K && p
 __CPROVER_ensures (g_loaded_pos == __CPROVER_old (g_file_pos) && g_file_pos == __CPROVER_old (g_file_pos) + BLOCKBYTES && g_decode_calls == __CPROVER_old (g_decode_calls) + 1)
 ;
 
+#ifdef LAYOUT_GSM
+void gsm_init (gsm g)
+__CPROVER_assigns ()
+__CPROVER_ensures (1)
+;
+int gsm_option (gsm g, int opt, int *val)
+__CPROVER_assigns ()
+__CPROVER_ensures (1)
+;
+#endif
+
 #define PIMA	((IMA_ADPCM_PRIVATE *) psf->codec_data)
 /* reader state invariant: nothing decoded yet, or the buffer holds block number blockcount / K - 1 */
 #define LOADED_OK(pos)	(PIMA->blockcount == 0 || (PIMA->blockcount % K == 0 && (pos) == psf->dataoffset + (PIMA->blockcount / K - 1) * BLOCKBYTES))
 
 static sf_count_t SEEK_FN (SF_PRIVATE *psf, int mode, sf_count_t offset)
 __CPROVER_requires (__CPROVER_is_fresh (psf, sizeof (SF_PRIVATE)) && __CPROVER_is_fresh (psf->codec_data, sizeof (IMA_ADPCM_PRIVATE)))
+#ifdef LAYOUT_GSM
+__CPROVER_requires (psf->sf.channels == 1 && PIMA->blocksize == BLOCKSIZE && PIMA->samplesperblock == SPB && psf->file.mode == vin_mode)
+/* the reader's position and its block state agree (what the "already there" shortcut relies on) */
+__CPROVER_requires (0 <= PIMA->samplecount && PIMA->samplecount < SPB && 0 <= psf->read_current
+	&& (PIMA->blockcount == 0 ? psf->read_current == 0 : psf->read_current == (sf_count_t) (PIMA->blockcount - 1) * SPB + PIMA->samplecount))
+#else
 __CPROVER_requires (psf->sf.channels == CH && PIMA->channels == CH && PIMA->blocksize == BLOCKSIZE && PIMA->samplesperblock == SPB)
+#endif
 __CPROVER_requires (0 <= PIMA->blocks && PIMA->blocks <= (1 << 20) && PIMA->blocks % K == 0 && 0 <= PIMA->blockcount && PIMA->blockcount <= PIMA->blocks + K)
 #ifndef LAYOUT_MS
 __CPROVER_requires (__CPROVER_obeys_contract (PIMA->decode_block, decode_block_c))
